@@ -156,28 +156,45 @@ class PageCache(Entity):
         self._pages.move_to_end(page_id)
 
     def _evict_one(self) -> Generator[float]:
-        """Evict the least-recently-used page, flushing if dirty."""
+        """Evict the least-recently-used page, flushing if dirty.
+
+        The victim leaves the cache *before* the write-back latency is
+        yielded, so a concurrent eviction can never choose (or delete) the
+        same page a second time.
+        """
         if not self._pages:
             return
 
-        oldest_id, oldest = next(iter(self._pages.items()))
+        _oldest_id, oldest = self._pages.popitem(last=False)
+        self._evictions += 1
         if oldest.dirty:
             yield self._disk_write_latency_s
             self._dirty_writebacks += 1
-
-        del self._pages[oldest_id]
-        self._evictions += 1
 
     def _ensure_space(self) -> Generator[float]:
         """Evict pages until there is room for at least one new page."""
         while len(self._pages) >= self._capacity:
             yield from self._evict_one()
 
+    def _insert_clean(self, page_id: int) -> Generator[float]:
+        """Insert a page that was just read from disk.
+
+        Other operations may have filled the cache (or brought the same page
+        in, possibly dirty) while the disk read was in flight, so room is
+        re-made here and re-checked after every yield.  A page that is
+        already cached is left untouched.
+        """
+        while page_id not in self._pages:
+            if len(self._pages) < self._capacity:
+                self._pages[page_id] = _CachedPage(page_id=page_id)
+                return
+            yield from self._evict_one()
+
     def _load_page(self, page_id: int) -> Generator[float]:
         """Load a page from disk into cache."""
         yield from self._ensure_space()
         yield self._disk_read_latency_s
-        self._pages[page_id] = _CachedPage(page_id=page_id)
+        yield from self._insert_clean(page_id)
 
     def read_page(self, page_id: int) -> Generator[float]:
         """Read a page, serving from cache if present.
@@ -199,8 +216,10 @@ class PageCache(Entity):
             if ahead_id not in self._pages and len(self._pages) < self._capacity:
                 yield from self._ensure_space()
                 yield self._disk_read_latency_s
-                self._pages[ahead_id] = _CachedPage(page_id=ahead_id)
-                self._readaheads += 1
+                # Prefetch only into room that is still free after the read.
+                if ahead_id not in self._pages and len(self._pages) < self._capacity:
+                    self._pages[ahead_id] = _CachedPage(page_id=ahead_id)
+                    self._readaheads += 1
 
     def write_page(self, page_id: int) -> Generator[float]:
         """Write a page to cache, marking it dirty.
@@ -224,9 +243,16 @@ class PageCache(Entity):
         Returns the number of pages flushed.
         """
         flushed = 0
-        for page in self._pages.values():
-            if page.dirty:
-                yield self._disk_write_latency_s
+        # Iterate over a snapshot: the cache may change during the yields.
+        for page_id in list(self._pages):
+            page = self._pages.get(page_id)
+            if page is None or not page.dirty:
+                continue
+            yield self._disk_write_latency_s
+            # The page may have been evicted (and written back by the
+            # evictor) or flushed by a concurrent flush meanwhile.
+            page = self._pages.get(page_id)
+            if page is not None and page.dirty:
                 page.dirty = False
                 self._dirty_writebacks += 1
                 flushed += 1
